@@ -399,6 +399,10 @@ func (b *BaseStore) Close() error {
 		}
 	}
 
+	// end the subscriptions made through the deprecated emitter interface: their
+	// goroutines only wait for their own context, nothing else would ever stop them
+	b.UnsubscribeAll()
+
 	// Reset replication statistics
 	b.ReplicationStatus().Reset()
 
